@@ -5,7 +5,8 @@ LEVEL = "exploration"
 RULE = ("S-syn listings x rules nesting $or/$and/$and_any_order to depth 3 at instruction level, at operand level "
         "($or of operands, $and_any_order of two operands) and $or inside a $deref field; alternatives of different "
         "lengths, decoy alternatives taken from other instructions, any-order children shuffled; one-step mutants "
-        "(drop/duplicate a child, drop an alternative, swap siblings). Oracle: R-dsl differential on found / leftmost "
+        "(drop/duplicate a child, drop an alternative, swap siblings); a nesting stratum puts an operator directly inside the same or "
+        "another operator (instruction and operand level) on listings that contain every order of the three elements. Oracle: R-dsl differential on found / leftmost "
         "start / hit windows. Non-trivial = model finds the rule or one mutation from a found case; distinct = (rule, listing).")
 FLOOR = {"quick": 300, "thorough": 4000}
 ANCHOR_HINTS = ["node_branch_root", "ast_builder", "pattern_node_builder", "deref_classes"]
@@ -13,13 +14,58 @@ REQUIRED_EVENTS = ["hits_located"]
 
 
 def feat(rng):
-    return RG.Feat(operands=0.6, groups=0.55, ogroups=0.35, deref=0.5, max_depth=rng.choice([1, 2, 3]),
+    return RG.Feat(operands=0.6, groups=0.55, ogroups=0.4, deref=0.5, max_depth=rng.choice([1, 2, 3]), max_odepth=rng.choice([1, 2, 3]),
                    max_spine=rng.choice([1, 2, 3]))
+
+
+def nesting_stratum(ctx, d, n):
+    """An operator nested directly in the same (or another) operator, on listings that contain EVERY order of the three
+    elements: `$and_any_order: [a, $and_any_order: [b, c]]` keeps b and c adjacent, `$and: [a, $and: [b, c]]` is a b c only."""
+    import itertools
+    from jv import dsl, listing as L
+    rng = ctx.rng
+    ops3 = ["$and_any_order", "$and", "$or"]
+    for _ in range(n):
+        level = rng.choice(["instruction", "operand"])
+        outer, inner = rng.choice(ops3), rng.choice(ops3)
+        if level == "instruction":
+            a, b, c = rng.sample(["push", "pop", "call", "ret", "leave", "nop", "inc", "dec"], 3)
+            insts, addr = [], 0x401000
+            for perm in itertools.permutations([a, b, c]):
+                for m in perm:
+                    insts.append(L.SInst(addr, m, [], None, None, 1))
+                    addr += 1
+                insts.append(L.SInst(addr, "hlt", [], None, None, 1))
+                addr += 1
+            # also windows with one element missing / doubled
+            for m in (a, b, "hlt", b, c, "hlt", a, a, b, c, "hlt"):
+                insts.append(L.SInst(addr, m, [], None, None, 1))
+                addr += 1
+            pattern = [{outer: rng.choice([[a, {inner: [b, c]}], [{inner: [b, c]}, a]])}]
+            if rng.random() < 0.5:
+                pattern = ["hlt"] + pattern + ["hlt"]
+        else:
+            r1, r2, r3 = rng.sample(["%rax", "%rbx", "%rcx", "%rdx", "%rsi", "%rdi"], 3)
+            insts, addr = [], 0x401000
+            for perm in itertools.permutations([r1, r2, r3]):
+                insts.append(L.SInst(addr, "lea", list(perm), None, None, 3))
+                addr += 3
+            insts.append(L.SInst(addr, "lea", [r1, r2], None, None, 3))
+            insts.append(L.SInst(addr + 3, "lea", [r2, r3], None, None, 3))
+            pattern = [{"lea": [{outer: rng.choice([[r1[1:], {inner: [r2[1:], r3[1:]]}], [{inner: [r2[1:], r3[1:]]}, r1[1:]]])}]}]
+        prep = dsl.Prepared(d.ws, insts, rng)
+        ctx.ran()
+        if not prep.verify(d.ws):
+            ctx.inconc("parser disagreement on synthetic listing")
+            continue
+        d.prep, d.style = prep, f"nesting/{level}/{outer[1:]}>{inner[1:]}"
+        d.run_pattern(pattern, "base", True)
 
 
 def run_shard(ctx):
     d = drive.Driver(ctx, feat, flags="random", styles=("mixed", "runs", "dups"))
     d.loop(3000, 250000)
+    nesting_stratum(ctx, d, ctx.share(180, 6000))
 
 
 def replay(ctx, case):
